@@ -34,7 +34,21 @@ func init() {
 	}})
 }
 
-func (p *c13) NumCases(tier string, seed int64) int { return tierN(tier, 20000, 2400000) }
+func (p *c13) NumCases(tier string, seed int64) int { return len(c13Fixed) + tierN(tier, 20000, 2400000) }
+
+// c13Fixed: hand-written chains for restriction kinds and defaults the chain generator does not produce.
+var c13Fixed = []struct {
+	what, body string
+	accept     bool
+}{
+	{"empty leaf", `leaf l { type empty; }`, true},
+	{"default on a leaf of type empty", `leaf l { type empty; default ""; }`, false},
+	{"default on a typedef of type empty", `typedef e { type empty; default ""; } leaf l { type e; }`, false},
+	{"decimal64 typedef narrowed by range", `typedef d { type decimal64 { fraction-digits 2; } } leaf l { type d { range "1..2"; } }`, true},
+	{"fraction-digits repeated on a type derived from a decimal64 typedef", `typedef d { type decimal64 { fraction-digits 2; } } leaf l { type d { fraction-digits 2; } }`, false},
+	{"other fraction-digits on a type derived from a decimal64 typedef", `typedef d { type decimal64 { fraction-digits 2; } } leaf l { type d { fraction-digits 4; range "1..2"; } }`, false},
+	{"fraction-digits on a typedef derived from a decimal64 typedef", `typedef d { type decimal64 { fraction-digits 2; } } typedef d2 { type d { fraction-digits 1; } } leaf l { type d2; }`, false},
+}
 
 type c13Level struct {
 	rangeArg  string
@@ -618,13 +632,38 @@ func (ch *c13Chain) text() string {
 	return yang.Render(m, nil)
 }
 
+func c13FixedText(i int) string {
+	return "module m {\n  namespace urn:m;\n  prefix m;\n  container c {\n    " + strings.ReplaceAll(c13Fixed[i].body, "} leaf", "}\n    leaf") + "\n  }\n}\n"
+}
+
 func (p *c13) Describe(tier string, seed int64, idx int) string {
+	if idx < len(c13Fixed) {
+		return "// " + c13Fixed[idx].what + "\n" + c13FixedText(idx)
+	}
+	idx -= len(c13Fixed)
 	ch := c13Gen(seed, idx)
 	return fmt.Sprintf("// injected defect: %q\n%s", ch.defect, ch.text())
 }
 
 func (p *c13) Run(tier string, seed int64, idx int) core.CaseResult {
 	var res core.CaseResult
+	if idx < len(c13Fixed) {
+		f := c13Fixed[idx]
+		text := c13FixedText(idx)
+		cr := compileTexts(map[string]string{"m": text}, nil, nil, nil, false)
+		res.Ev("fixed_chains", 1)
+		res.Key(text)
+		switch {
+		case cr.Panic != "" || cr.ParseErr != "":
+			res.Fail("C13/fixed/panic-or-parse-error", text, cr.Panic+cr.ParseErr)
+		case cr.Accepted() && !f.accept:
+			res.Fail("C13/defect-accepted/fixed/"+strings.ReplaceAll(f.what, " ", "-"), text, "compiled although: "+f.what)
+		case !cr.Accepted() && f.accept:
+			res.Fail("C13/valid-chain-rejected/fixed/"+strings.ReplaceAll(f.what, " ", "-"), text, cr.Err)
+		}
+		return res
+	}
+	idx -= len(c13Fixed)
 	ch := c13Gen(seed, idx)
 	text := ch.text()
 	input := fmt.Sprintf("// injected defect: %q\n%s", ch.defect, text)
